@@ -79,3 +79,26 @@ Definition rth_final_target (e : rth_entry) (start : vec4) : vec4 :=
   if a =? SB_RTH_ACTION_LAND then t1
   else if a =? SB_RTH_ACTION_GO_TO_KEEPING_ALTITUDE then mkvec4 (fst (re_target e)) (snd (re_target e)) (vz t1) (vyaw t1)
   else mkvec4 (fst (re_target e)) (snd (re_target e)) (re_altitude e) (vyaw t1).
+
+(** ---- the points the trajectory passes at the cumulative time of each call ---- *)
+(** position of the abstract trajectory at a whole millisecond *)
+Definition pos_ms (T : straj) (m : Z) : vec4 :=
+  pos_from (st_scale T) (sstart T) 0 (st_segs T) (ms_sec m).
+
+(** (cumulative milliseconds, requested point) of every successful append-line call *)
+Fixpoint bmarks (b : builder) (acc : Z) (calls : list bcall) : list (Z * vec4) :=
+  match calls with
+  | [] => []
+  | c :: r => match bstep b c with
+              | Ok b' => match c with
+                         | CLine p d => (acc + d, p) :: bmarks b' (acc + d) r
+                         | _ => bmarks b' (acc + dur_of c) r
+                         end
+              | _ => bmarks b acc r
+              end
+  end.
+
+(** durations for which the instants are meaningful: a zero-duration line is a
+    jump (no position "at" its instant) *)
+Definition call_pos (c : bcall) : Prop :=
+  match c with CStart _ => True | CLine _ d => 0 < d < 4294967296 | CHold d => d < 4294967296 end.
